@@ -145,4 +145,4 @@ impl Iterator for BinaryTermBuilder<'_> {
 
 #[cfg(kani)]
 #[path = "/verif/kani/binary.rs"]
-mod verif_kani;
+pub(crate) mod verif_kani;
